@@ -735,7 +735,54 @@ fn run_hostile_frames(plan: &Plan, lib: &dyn Lib, rec: &mut Rec) {
             }
         }
     }
-    let _ = pl;
+    // valid timestamp proofs with extreme timestamps (a key holder can make them), presented twice: without and then with a timeout
+    for scheme in [0u8, 2] {
+        let Some(sig) = rec.call(lib, g, Op::Sign, &[&sk, &[scheme], &msg]).first().map(|b| b.to_vec()) else { continue };
+        let sgp = Pt::from_bytes(&sig[1..]).unwrap();
+        for t in [0u64, 1, u64::MAX - 5, u64::MAX, 1 << 63, (1 << 63) - 1, u64::MAX / 2] {
+            let xs = refimpl::keygen(&x.bytes(8));
+            let u = b.hash_msg(&msg, &dsts[scheme as usize]).mul(&xs);
+            let y = refimpl::pok_challenge_ts(&u, t);
+            let (u, v) = refimpl::pok_make(&b, &msg, &dsts[scheme as usize], &sgp, &xs, &y);
+            let proof = PokFields { tag: scheme, u: u.to_bytes(), v: v.to_bytes(), ts: Some(t) }.build();
+            rec.fault("byz-extreme-timestamp");
+            rec.case(&[17, g as u64, scheme as u64, t % 1009, 4], true);
+            rec.call(lib, g, Op::PokTsVerify, &[&proof, &pk, &msg, &[]]);
+            for to in crate::sc_pok::TIMEOUTS {
+                let targ: Vec<u8> = to.map(|v| v.to_le_bytes().to_vec()).unwrap_or_default();
+                rec.call(lib, g, Op::PokTsVerify, &[&proof, &pk, &msg, &targ]);
+                rec.call(lib, g, Op::PokTsVerify, &[&proof, &pk, &msg, &targ]);
+            }
+        }
+    }
+    // back-to-back sequences of REJECTED ciphertexts whose payload lengths go up and down (no successful
+    // operation in between): what reused scratch space or remembered streams must survive
+    let lens = [32usize, 33, 0, 100, 31, 4096, 1, 64, 5000, 32, 200];
+    for scheme in 0u8..3 {
+        let Some(ct) = rec.call(lib, g, Op::SignCrypt, &[&pk, &[scheme], b"seq"]).first().map(|b| b.to_vec()) else { continue };
+        let Some(f0) = SignCryptFields::parse(&ct, pl) else { continue };
+        let Some(tl) = rec.call(lib, g, Op::TimeLock, &[&pk, &[scheme], b"seq", b"id"]).first().map(|b| b.to_vec()) else { continue };
+        let Some(t0) = TimeLockFields::parse(&tl, pl) else { continue };
+        let wrong_sig = rec.call(lib, g, Op::Sign, &[&sk, &[scheme], b"another id"]).first().map(|b| b.to_vec()).unwrap_or_default();
+        let mut s32 = [0u8; 32];
+        x.fill(&mut s32);
+        let shares = rec.call(lib, g, Op::Split, &[&sk, &u64b(2), &u64b(3), &s32]).ok().unwrap_or_default();
+        for l in lens {
+            rec.fault("byz-rejected-sequence");
+            rec.case(&[17, g as u64, scheme as u64, l as u64, 5], true);
+            let forged = SignCryptFields { u: f0.u.clone(), v: x.bytes(l), w: f0.w.clone(), scheme }.build();
+            rec.call(lib, g, Op::ScDecrypt, &[&forged, &sk]);
+            if let Some(k) = rec.call(lib, g, Op::ScDecKey, &[&sk, &forged]).first().map(|b| b.to_vec()) {
+                rec.call(lib, g, Op::DkDecrypt, &[&k, &forged]);
+            }
+            let ds: Vec<Vec<u8>> = shares.iter().filter_map(|s| rec.call(lib, g, Op::ScShare, &[&forged, s]).first().map(|b| b.to_vec())).collect();
+            let mut a: Vec<&[u8]> = vec![&forged];
+            a.extend(ds.iter().map(|d| d.as_slice()));
+            rec.call(lib, g, Op::ScDecryptShares, &a);
+            let forged_tl = TimeLockFields { u: t0.u.clone(), v: t0.v.clone(), w: x.bytes(l), scheme }.build();
+            rec.call(lib, g, Op::TlDecrypt, &[&forged_tl, &wrong_sig]);
+        }
+    }
     rec.sample(|| format!("g={} {} attacker-chosen frames x 3 schemes inside valid signcryption/time-lock envelopes; 14 timestamps x 9 timeouts x 5 clock skews", g.name(), frames.len()));
 }
 
